@@ -44,7 +44,8 @@ RULE = (
     "MemoryFullCache / HDF5Cache in VERIF_SCRATCH, tolerance 0 or 1e-12), whether statistics are enabled, a life before pickling "
     "(0-4 of: execute at a generated point, repeated execute, linearize all / a differentiated subset, re-bound default, "
     "finite-difference mode, a CustomDOE scenario driving the object with or without Jacobians, grammar edits after use: "
-    "restrict_to removing an output or the added input, update_from_data adding an optional input, rename_element), the channel (pickle.dumps/loads "
+    "restrict_to removing an output or the added input, update_from_data adding an optional input, rename_element, "
+    "set_descriptions on JSON / Pydantic grammars), the channel (pickle.dumps/loads "
     "with protocol 2/4/5, to_pickle/from_pickle, or a forked multiprocessing worker that receives the object through a pipe, "
     "executes it and sends it back), 1-3 generated points (base point of the recipe perturbed component-wise, possibly omitting "
     "defaulted inputs, executed or linearized) and 1-4 mutations.  The restored object must expose equal grammars (ordered "
@@ -63,7 +64,17 @@ RULE = (
     "symbols, plus drawn recipes, life of 0-2 steps) is built, used and saved with to_pickle by a child interpreter started "
     "with PYTHONHASHSEED=a, then loaded with from_pickle, executed and linearized by another child with PYTHONHASHSEED=b != a "
     "(a, b in {0, 1, 2, 3, 123}); the loaded object must expose the saved state and return bit-identical outputs / Jacobians "
-    "to those the saving process computes on its own object after saving.  Further drives: 18 MDOFunction kinds incl. ProblemFunction of a preprocessed problem (attributes, n_calls, "
+    "to those the saving process computes on its own object after saving.  Drive grammar: a JSON / Pydantic / Simple / Simpler "
+    "grammar built alone through 3-8 API calls (update_from_names / data / types, set_descriptions, defaults, optional names, "
+    "restrict_to, rename_element, validation, schema read, namespaces) is sent through a channel; names, required names, "
+    "defaults, namespaces, accept / reject decisions and - for the types that document them - schema, element descriptions and "
+    "annotations (Simple: element types) must be equal; independence; second generation after further edits.  Drive "
+    "hdf5_file_changes: an HDF5-cached discipline is used at 1-4 points (optionally revisiting an older entry), saved, then "
+    "the original clears the node and stores fewer / as many / more points, or appends points, or does nothing, then the "
+    "object is loaded: the restored cache must be a valid view of the file as it is at load time (same file / node / name, "
+    "len and entries equal to the original's, last entry one of the entries, input / output names and names_to_sizes those "
+    "of the last entry, to_dataset() with one row per entry) and stored points are hits returning the stored outputs.  "
+    "Further drives: 18 MDOFunction kinds incl. ProblemFunction of a preprocessed problem (attributes, n_calls, "
     "travelling database, evaluate / jac, independence); DesignSpace / ParameterSpace (views, ==, normalisation / projection / "
     "cdf maps, OT sampling, independence); OptimizationProblem fresh / evaluated / after a driver (views incl. database, "
     "solution, counters; evaluate_functions; SLSQP / COBYLA / LHS / Halton run on both: equal results and databases; "
@@ -1963,8 +1974,9 @@ def _valid_cache_view(cache, ctx, who: str) -> dict:
     if entries:
         last = cache.last_entry
         last_plain = {"in": plain(dict(last.inputs)), "out": plain(dict(last.outputs))}
-        ctx.check(bool(last.inputs) and any(diff(last_plain, e) is None for e in entries), "hdf5_view_of_file",
-                  f"{who}: the cache holds {len(entries)} entries but its last entry {'is empty' if not last.inputs else 'is none of them'}")
+        empty = not last.inputs and not last.outputs  # (a discipline without inputs has entries without inputs)
+        ctx.check(not empty and any(diff(last_plain, e) is None for e in entries), "hdf5_view_of_file",
+                  f"{who}: the cache holds {len(entries)} entries but its last entry {'is empty' if empty else 'is none of them'}")
         ctx.check(cache.input_names == sorted(last.inputs) and cache.output_names == sorted(last.outputs), "hdf5_view_of_file",
                   f"{who}: input / output names {cache.input_names} / {cache.output_names} are not those of the last entry")
         sizes = cache.names_to_sizes
@@ -1984,7 +1996,8 @@ def case_hdf5_file(p, ctx):
     LOOSE_DTYPE[0] = True
     try:
         life = Life(p, "HDF5", tmp)
-        if life.cache_kind != "HDF5":
+        if life.cache_kind != "HDF5" or not life.base:
+            ctx.cls("hdf5_file:not_applicable")  # non-array inputs, or a discipline without inputs (nothing to key entries on)
             return
         orig = life.obj
         rec = life.rec
